@@ -27,7 +27,7 @@ def run(ctx):
     progs = F.c12_raising(ctx.tier, rnd)
     agg = run_family("C12raise", progs, NAMES, dev=dev, invariants=INVS, perms=(0, 1) if quick else (0, 1, 2), timeout=1800)
     ctx.add_family(agg)
-    agg = run_family("C12metal", F.c12_metal(ctx.tier, rnd), NAMES + ["macroname"], dev=dev, invariants=INVS, perms=(0,), timeout=1800)
+    agg = run_family("C12metal", F.c12_metal(ctx.tier, rnd), NAMES + ["macroname"], dev=dev, invariants=INVS, perms=(0, 1, 2), timeout=1800)
     ctx.add_family(agg)
     ctx.exhaustive = True
     ctx.rule = ("programs: subsets of the TAL statements on one element with multi-line text interpolations; every call "
